@@ -309,8 +309,29 @@ fn next_case(ctx: &mut Ctx, rng: &mut Rng, fmt: Fmt) -> Case {
                 }
             }
             "C07" => {
-                if r < 85 {
+                if r < 78 {
                     gen::g3(rng, fmt)
+                } else if r < 86 {
+                    // the number-theoretic hard cases of the moderate stage (and the lo == MAX entries) that lie at the
+                    // ends of the range: subnormal / just-normal results and the top decades
+                    let lim = if fmt.mant_bits == 52 { 305 } else { 36 };
+                    let mut pick = None;
+                    for _ in 0..48 {
+                        if let Some(c) = ctx.corpus_case(rng, fmt) {
+                            let d = c.dec();
+                            if !d.is_zero() && (d.point - 1).abs() >= lim {
+                                pick = Some(c);
+                                break;
+                            }
+                        }
+                    }
+                    match pick {
+                        Some(mut c) => {
+                            c.tag = "CFHARD_RANGE_END";
+                            c
+                        }
+                        None => continue,
+                    }
                 } else {
                     gen::g1(rng, fmt)
                 }
@@ -600,8 +621,12 @@ fn mode_oracle(ctx: &mut Ctx, args: &Args, rng: &mut Rng, shard: (u64, u64)) {
     if ctx.prop == "C02" {
         ctx.rep.require("probe.double_rounding_discriminating");
     }
+    if !cfg!(feature = "compact") && (ctx.prop == "C01" || ctx.prop == "C07") {
+        // Eisel-Lemire's lo == MAX bail-out: reached only through the constructed corpus entries (2^-64 otherwise)
+        ctx.rep.require("path.lemire_lo_max_fallback");
+    }
     if ctx.prop == "C07" {
-        for k in ["class.inf", "class.zero", "class.subnormal", "tag.ZERO", "tag.COMP_INT", "tag.COMP_FRAC", "tag.EXTREME_EXP"] {
+        for k in ["class.inf", "class.zero", "class.subnormal", "tag.ZERO", "tag.COMP_INT", "tag.COMP_FRAC", "tag.EXTREME_EXP", "tag.CFHARD_RANGE_END"] {
             ctx.rep.require(k);
         }
     }
@@ -639,10 +664,26 @@ fn mode_roundtrip(ctx: &mut Ctx, args: &Args, rng: &mut Rng, shard: (u64, u64)) 
     let fm = F64.frac_mask();
     let mut e = shard.0;
     while e <= 2046 {
-        let fr: [u64; 10] = [0, 1, 2, fm, fm - 1, fm - 2, 1u64 << 51, rng.next() & fm, rng.next() & fm, rng.next() & fm];
+        let fr: [u64; 11] = [0, 1, 2, fm, fm - 1, fm - 2, 1u64 << 51, 1u64 << 50, rng.next() & fm, rng.next() & fm, rng.next() & fm];
         for f in fr {
             for which in 0..3u64 {
-                roundtrip_one(ctx, rng, F64, e << 52 | f, which);
+                // the structured values (powers of two and their neighbours, 1.5 x and 1.25 x 2^k) in every layout
+                for lay in 0..4u64 {
+                    roundtrip_lay(ctx, rng, F64, e << 52 | f, which, Some(lay));
+                }
+            }
+        }
+        e += shard.1;
+    }
+    // the same structured values for f32, every biased exponent, every layout (on top of the strided / complete enumeration)
+    let fm32 = F32.frac_mask();
+    let mut e = shard.0;
+    while e <= 254 {
+        for f in [0, 1, 2, fm32, fm32 - 1, 1u64 << 22, 1u64 << 21, 3u64 << 21] {
+            for which in 0..3u64 {
+                for lay in 0..4u64 {
+                    roundtrip_lay(ctx, rng, F32, e << 23 | f, which, Some(lay));
+                }
             }
         }
         e += shard.1;
@@ -663,6 +704,10 @@ fn mode_roundtrip(ctx: &mut Ctx, args: &Args, rng: &mut Rng, shard: (u64, u64)) 
 }
 
 fn roundtrip_one(ctx: &mut Ctx, rng: &mut Rng, fmt: Fmt, bits: u64, which: u64) {
+    roundtrip_lay(ctx, rng, fmt, bits, which, None)
+}
+
+fn roundtrip_lay(ctx: &mut Ctx, rng: &mut Rng, fmt: Fmt, bits: u64, which: u64, layout: Option<u64>) {
     let (sig, e10) = gen::render(fmt, bits, which);
     let lz = sig.iter().take_while(|&&c| c == b'0').count();
     let c = if lz == sig.len() {
@@ -671,7 +716,7 @@ fn roundtrip_one(ctx: &mut Ctx, rng: &mut Rng, fmt: Fmt, bits: u64, which: u64) 
         let sig = &sig[lz..];
         let tag = ["RENDER_SHORTEST", "RENDER_FIXED", "RENDER_EXACT"][which as usize];
         // layout: scientific-like (d.ddd e X), integer-only, fraction-only, or positional (as `{}` prints: exponent 0)
-        let lay = rng.below(4);
+        let lay = layout.unwrap_or_else(|| rng.below(4));
         ctx.rep.count(["layout.scientific", "layout.int_only", "layout.frac_only", "layout.positional"][lay as usize]);
         match gen::place(sig, e10, if lay == 0 { 2 } else if lay == 3 { 3 } else { lay - 1 }, rng.below(3) as usize, 1, tag) {
             Some(c) => c,
